@@ -3,17 +3,30 @@ Core-only so that it links as a `lean_exe`. -/
 import OsmoVerif.Model.DrvNum
 import OsmoVerif.Model.DrvMath
 import OsmoVerif.Model.DrvMint
+import OsmoVerif.Model.DrvCL
+import OsmoVerif.Model.DrvSumTree
+import OsmoVerif.Model.DrvEpochs
+import OsmoVerif.Model.DrvAccum
 
 open OsmoVerif
 
 structure St where
   mint : Mint.DrvState := Mint.initMint
+  sumtree : SumTree.Store := SumTree.initSumTree
+  epochs : Epochs.State := Epochs.initEpochs
+  accum : Accum.AccumState := Accum.initAccum
 
 def step (st : St) (line : String) : St × String :=
   match (line.trimAscii.toString.splitOn " ").filter (· ≠ "") with
   | "num" :: op :: args => (st, Num.stepNum op args)
   | "math" :: op :: args => (st, MathM.stepMath op args)
   | "tick" :: op :: args => (st, Tick.stepTick op args)
+  | "cl" :: op :: args => (st, CL.stepCL op args)
+  | "sumtree" :: op :: args =>
+    let r := SumTree.stepSumTree st.sumtree op args
+    ({ st with sumtree := r.1 }, r.2)
+  | "epochs" :: op :: args => let (e, o) := Epochs.stepEpochs st.epochs op args; ({ st with epochs := e }, o)
+  | "accum" :: op :: args => let (a, o) := Accum.stepAccum st.accum op args; ({ st with accum := a }, o)
   | "mint" :: op :: args => let (m, o) := Mint.stepMint st.mint op args; ({ st with mint := m }, o)
   | _ => (st, "bad-op")
 
